@@ -276,6 +276,9 @@ void FeatureEvaluator::operator()(Opcode::Opcode op, Clause::Id id,
                     v.row(a).leftCols(count)  = v(a, 0);
                     filled(a) = count;
                 }
+                // Some derivative kernels (e.g. sqrt) read the clause's own
+                // value, which so far is only valid in slot 0
+                v.row(id).leftCols(count) = v(id, 0);
                 setCount(count);
                 DerivArrayEvaluator::operator()(op, id, a, b);
                 for (unsigned i=0; i < count; ++i) {
@@ -305,6 +308,7 @@ void FeatureEvaluator::operator()(Opcode::Opcode op, Clause::Id id,
                     v.row(b).leftCols(count)  = v(b, 0);
                     filled(b) = count;
                 }
+                v.row(id).leftCols(count) = v(id, 0);
                 setCount(count);
                 DerivArrayEvaluator::operator()(op, id, a, b);
                 for (unsigned i=0; i < count; ++i) {
